@@ -204,7 +204,7 @@ def returned_value_item(item):
     out["encoded"] = run.encoded_digest()
     for p in run.paths:
         v = p.outcome.value if isinstance(p.outcome, Return) else None
-        ok = isinstance(v, harness.Choice) and isinstance(v.population, list) and len(v.population) == 2 and \
+        ok = isinstance(v, harness.Choice) and isinstance(v.population, (list, tuple)) and len(v.population) == 2 and \
             type(v.population[0]) is type(value) and v.population[0] == value and \
             (str(v.population[0]) == str(value))
         if not ok:
